@@ -190,6 +190,16 @@ def run_pair(cfg):
                         return ("chief-trial-" + r[0], "trial %s on the chief: %s" % (tr.trial_id, r[1])), log
                     held_d[w] = td; held_r[w] = tr
                 log.append(("create", w, td.trial_id, td.status))
+            # what a worker is told the search space is = the space the chief's oracle holds now (also after an end_trial that
+            # brought new entries)
+            if step % 3 == 0:
+                try:
+                    got_sp = [(h.name, type(h).__name__, [(c.name, list(c.values)) for c in h.conditions]) for h in client.get_space().space]
+                except Exception as e:
+                    lc._release(remote); return ("exception", "remote get_space raised %s: %s" % (type(e).__name__, str(e)[:160])), log
+                have_sp = [(h.name, type(h).__name__, [(c.name, list(c.values)) for c in h.conditions]) for h in remote.hyperparameters.space]
+                if sorted(map(repr, got_sp)) != sorted(map(repr, have_sp)):
+                    return ("get-space", "request %d: get_space through the RPC layer lists %r, the chief's oracle holds %r" % (step, [x[0] for x in got_sp], [x[0] for x in have_sp])), log
             # (C) exit_chief
             want = len(remote.ongoing_trials) == 0 and len(remote.tuner_ids) == 0
             if oracle_chief.exit_chief(remote) != want:
